@@ -108,9 +108,17 @@ func compareFront(cli string, drv *Driver, dir, setup string) CaseReport {
 			// L6/L7 (base code, goimports, gofmt) may still reject; the front half must agree on stderr prefix
 			if !prefixLines(model.Stderr, implErr) {
 				diff("stderr", "CLI failed after the front half and stderr differs:\n  model: %q\n  impl:  %q", model.Stderr, implErr)
+			} else if model.MarkersSane {
+				// parser and builder accept, the markers are planted sanely, the function texts parse:
+				// nothing in convergen's own logic explains a failure
+				diff("exit", "model predicts success, the run fails: %q", implErr[len(model.Stderr):])
 			}
 			rep.Skipped = "back-half-error"
-			rep.BackHalfError = backHalfClass(implErr[len(model.Stderr):])
+			if len(implErr) >= len(model.Stderr) {
+				rep.BackHalfError = backHalfClass(implErr[len(model.Stderr):])
+			} else {
+				rep.BackHalfError = backHalfClass(implErr)
+			}
 			break
 		}
 		if !equalLines(model.Stderr, implErr) {
